@@ -37,7 +37,7 @@ SESSION_CANNOT = ('Twisted internals and real sockets (stand-in reactor, DESIGN 
                   'are attributed to C12')
 
 PROPS['C01'] = {
-    'module': 'Yabgp.Props.C01',
+    'module': 'Yabgp.Props.C01All',
     'theorems': ['Yabgp.C01_hold_timer_expires', 'Yabgp.C01_keepalive_timer_expires',
                  'Yabgp.C01_connect_retry_expires_in_session', 'Yabgp.C01_connect_retry_expires_connect',
                  'Yabgp.C01_start_from_idle', 'Yabgp.C01_manual_start_ignored', 'Yabgp.C01_manual_stop',
@@ -46,12 +46,13 @@ PROPS['C01'] = {
                  'Yabgp.C01_keepalive_msg', 'Yabgp.C01_keepalive_bad_length', 'Yabgp.C01_update_msg',
                  'Yabgp.C01_notification_msg', 'Yabgp.C01_route_refresh_msg',
                  'Yabgp.C01_established_only_via_keepalive', 'Yabgp.C01_openconfirm_only_via_open',
-                 'Yabgp.C04_framing_violation'],
+                 'Yabgp.C04_framing_violation', 'Yabgp.C01_reachable_session_is_normal'],
     'genagree': SESSION_GEN,
     'suites': ['session'],
     'cannot': SESSION_CANNOT,
     'level_text': 'Lean 4 theorems, one per RFC 4271 section 8 event, over the hand-written executable model of '
-                  'fsm.py/protocol.py/factory.py/timer.py: for every state with a live tracked connection and every '
+                  'fsm.py/protocol.py/factory.py/timer.py: for every state with a live tracked connection (which is EVERY reachable '
+                  'session state: C01_reachable_session_is_normal, by the skeleton invariants over all histories) and every '
                   'message body / timer / operator event they give the next state, the NOTIFICATION code and sub-code, '
                   'the OPEN/KEEPALIVE emitted and the close decision; Established and OpenConfirm are shown to be '
                   'entered by no other message than KEEPALIVE-in-OpenConfirm resp. a valid OPEN-in-OpenSent. The model '
